@@ -8,6 +8,7 @@ import (
 	"path/filepath"
 
 	rp "github.com/jhalter/mobius/verifsim/refproto"
+	"github.com/jhalter/mobius/verifsim/simfs"
 )
 
 // C09: uploads are exact, published atomically, and resumable after any cut (DESIGN §6 C09).
@@ -41,7 +42,22 @@ func genC09(rng *rand.Rand, c *Case) {
 	cuts := rng.Intn(6)
 	for i := 0; i < cuts; i++ {
 		// N[0] selects the region, N[1] a position inside it (per mille)
-		c.Ops = append(c.Ops, Op{K: "cut", N: []int{rng.Intn(9), rng.Intn(1001), rng.Intn(2)}})
+		c.Ops = append(c.Ops, Op{K: "cut", N: []int{rng.Intn(9), rng.Intn(1001), rng.Intn(2), 0}})
+	}
+	// drawn last, so that the cases generated before these knobs existed keep their shape
+	c.Cfg["commentlen"] = []int{0, 0, 1, 40, 255}[rng.Intn(5)]
+	for i := range c.Ops {
+		if rng.Intn(3) == 0 {
+			c.Ops[i].N[3] = 1 // the client asks to resume at once, while the server is still winding the cut transfer down
+		}
+	}
+	if c.Cfg["existing"] == 0 && rng.Intn(3) == 0 {
+		// a second client uploads another file into the same folder at the same time, with cuts of its own
+		c.Cfg["second"] = 1
+		c.Cfg["size2"] = 1 + rng.Intn(40000)
+		for i, n := 0, rng.Intn(4); i < n; i++ {
+			c.Ops = append(c.Ops, Op{K: "cut2", N: []int{rng.Intn(9), rng.Intn(1001), rng.Intn(2)}})
+		}
 	}
 }
 
@@ -52,14 +68,24 @@ func runC09(w *World) {
 	data := GenData(int64(cfg["dataseed"]), cfg["size"])
 	rsrc := GenData(int64(cfg["dataseed"])+3, cfg["rsrcsize"])
 	withRsrc := cfg["withrsrc"] == 1
+	comment := randText(rand.New(rand.NewSource(int64(cfg["dataseed"])+5)), cfg["commentlen"])
 	name := "u" + randText(rand.New(rand.NewSource(int64(cfg["dataseed"]))), cfg["namelen"]-1) + ".bin"
 	final := filepath.Join(w.FileRoot, "Uploads", name)
-	partial := final + ".incomplete"
 	existingContent := []byte("existing content that must survive")
 	if cfg["existing"] == 1 {
 		must(os.WriteFile(final, existingContent, 0644))
 	}
 	w.StartServer()
+	w.c09Expect = map[string][]byte{}
+	simfs.AfterRename = func(_, newpath string) {
+		if want, ok := w.c09Expect[newpath]; ok {
+			w.Probe("publication_instants_observed")
+			if got, _ := os.ReadFile(newpath); !bytes.Equal(got, want) {
+				w.Violate("c09-published-before-complete", "at the instant the final name appears it holds %d bytes, the client sent %d (common prefix %d)", len(got), len(want), commonPrefix(string(got), string(want)))
+			}
+		}
+	}
+	defer func() { simfs.AfterRename = nil }()
 	c := w.NewClient("uploader", "10.1.0.1")
 
 	w.Sim.Go("c0", true, func() {
@@ -103,132 +129,201 @@ func runC09(w *World) {
 			}
 			return
 		}
-		offset := 0     // data bytes the server holds according to the model
-		exists := false // the partial file exists according to the model
-		check := func(when string) bool {
-			if _, err := os.Stat(final); err == nil {
-				w.Violate("c09-published-before-complete", "%s: the final name exists although the upload is not complete", when)
-				return false
-			}
-			got, err := os.ReadFile(partial)
-			if err != nil {
-				if offset > 0 {
-					w.Violate("c09-partial-missing", "%s: partial file is missing, the server received %d data bytes", when, offset)
-					return false
-				}
-				// nothing of the data fork has arrived yet: an empty partial file and no partial file are the same
-				// "prefix received"; the model follows what the server chose
-				exists = false
-				return true
-			}
-			if !bytes.Equal(got, data[:offset]) {
-				sig := "c09-partial-not-prefix-received"
-				if bytes.HasPrefix(data, got) {
-					sig = "c09-partial-wrong-length"
-				}
-				w.Violate(sig, "%s: partial file has %d bytes, the data bytes received are exactly %d (is a prefix of the data: %v)", when, len(got), offset, bytes.HasPrefix(data, got))
-				return false
-			}
-			return true
-		}
-		for attempt, op := range append(append([]Op{}, w.Case.Ops...), Op{K: "finish"}) {
-			// what would a client do: resume if the server lists the file (a partial upload is shown under its final name)
-			listed := false
-			if rep, ok := c.Do(rp.TGetFileNameList, rp.F(rp.FFilePath, rp.FilePath(path...))); ok {
-				for _, d := range rep.GetAll(rp.FFileNameWithInfo) {
-					if e, err := rp.DecodeFileEntry(d); err == nil && e.Name == name {
-						listed = true
-					}
-				}
-			}
-			if listed != exists {
-				w.Violate("c09-partial-not-listed", "attempt %d: partial upload exists=%v but the file list shows the name: %v", attempt, exists, listed)
-				return
-			}
-			ref, roff, rep, ok := c.UploadReq(path, name, uint32(len(data)), exists)
-			if !ok {
-				w.Violate("c09-upload-refused", "attempt %d (resume=%v): upload request refused/unanswered: %s", attempt, exists, fieldStr(rep, rp.FError))
-				return
-			}
-			if exists {
-				w.Probe("resume_requests")
-				if int(roff) != offset {
-					w.Violate("c09-resume-offset", "attempt %d: server reports resume offset %d, it received %d data bytes", attempt, roff, offset)
-					return
-				}
-			}
-			stream := UploadStream(ref, name, data[offset:], rsrc, withRsrc, "")
-			info := rp.InfoFork{Name: []byte(name)}
-			hdr := 16 + 24 + 16 + len(info.Encode()) + 16
-			if op.K == "finish" {
-				c.SendStream(stream, -1, 0)
-				break
-			}
-			// choose the cut offset
-			cut := 0
-			if op.N[0] < 0 {
-				cut = w.Case.Idx % len(stream)
-				w.Probe("sweep_cuts")
-			} else {
-				regions := [][2]int{{0, 16}, {16, 40}, {40, 56}, {56, hdr - 16}, {hdr - 16, hdr}, {hdr, hdr + 2}, {hdr, len(stream)}, {max(hdr, len(stream)-20), len(stream)}, {0, len(stream)}}
-				r := regions[op.N[0]]
-				lo, hi := min(r[0], len(stream)-1), min(r[1], len(stream))
-				cut = lo + (hi-lo)*op.N[1]/1001
-			}
-			cut = max(0, min(cut, len(stream)-1))
-			w.Probe("fault_cut")
-			switch {
-			case cut < 16:
-				w.Probe("fault_cut_in_preamble")
-			case cut < hdr:
-				w.Probe("fault_cut_in_header")
-			case cut < hdr+len(data)-offset:
-				w.Probe("fault_cut_in_data")
-			default:
-				w.Probe("fault_cut_in_resource_fork")
-			}
-			graceful := len(op.N) > 2 && op.N[2] == 1
-			if op.N[0] < 0 {
-				graceful = w.Case.Idx/len(stream)%2 == 1
-			}
-			if graceful {
-				w.Probe("fault_cut_by_close")
-			} else {
-				w.Probe("fault_cut_by_reset")
-			}
-			c.SendStreamCut(stream, cut, 0, graceful)
-			if cut >= 16 {
-				exists = true // the server opens the partial file as soon as it has the transfer preamble
-			}
-			offset += max(0, min(cut-hdr, len(data)-offset))
-			Settle() // the server notices the reset; its transfer handler ends
-			if !check(fmt.Sprintf("after cut %d of attempt %d at stream offset %d", attempt, attempt, cut)) {
-				return
-			}
-		}
-		Settle()
-		got, err := os.ReadFile(final)
-		if err != nil {
-			w.Violate("c09-not-published", "upload completed but the final name does not exist: %v", err)
-			return
-		}
-		if !bytes.Equal(got, data) {
-			w.Violate("c09-content-differs", "uploaded file has %d bytes and differs from the %d bytes sent (common prefix %d)", len(got), len(data), commonPrefix(string(got), string(data)))
-			return
-		}
-		if _, err := os.Stat(partial); err == nil {
-			w.Violate("c09-partial-left-behind", "the partial file still exists after completion")
-		}
-		res := c.Download(path, name, -1, false)
-		if !res.OK || !bytes.Contains(res.Stream, data) || int(res.FileSize) != len(data) {
-			w.Violate("c09-download-differs", "download of the uploaded file does not return the uploaded bytes (ok=%v, stream %d bytes, file size field %d)", res.OK, len(res.Stream), res.FileSize)
-		}
-		w.Probe("uploads_completed")
+		c09Upload(w, c, path, name, data, rsrc, withRsrc, comment, "cut")
 	})
+	if cfg["second"] == 1 && cfg["existing"] == 0 {
+		c2 := w.NewClient("uploader2", "10.1.0.2")
+		data2 := GenData(int64(cfg["dataseed"])+21, cfg["size2"])
+		rsrc2 := GenData(int64(cfg["dataseed"])+23, cfg["rsrcsize"]/2)
+		w.Sim.Go("c1", true, func() {
+			if !c2.Login("guest", "", c2.Name, 1) {
+				w.Violate("c09-login", "second uploader could not log in")
+				return
+			}
+			w.Probe("second_concurrent_uploader")
+			c09Upload(w, c2, []string{"Uploads"}, "v"+name, data2, rsrc2, !withRsrc, "second "+comment, "cut2")
+		})
+	}
 	w.Sim.Run()
 	if c.FrameErr != nil {
 		w.Violate("c09-malformed-stream", "%v", c.FrameErr)
 	}
+}
+
+// c09Upload uploads one file with the cuts listed in the case's ops of kind opKind, checking the partial file after
+// every cut, the resume offset before every attempt and, after completion, the published file and what a download of
+// it returns.
+func c09Upload(w *World, c *Client, path []string, name string, data, rsrc []byte, withRsrc bool, comment string, opKind string) {
+	cfg := w.Case.Cfg
+	final := filepath.Join(append(append([]string{w.FileRoot}, path...), name)...)
+	partial := final + ".incomplete"
+	// the instant the final name appears it must hold the whole file (not only once the transfer handler is done)
+	w.c09Expect[final] = data
+	var ops []Op
+	for _, op := range w.Case.Ops {
+		if op.K == opKind {
+			ops = append(ops, op)
+		}
+	}
+	offset := 0     // data bytes the server holds according to the model
+	exists := false // the partial file exists according to the model
+	check := func(when string) bool {
+		if _, err := os.Stat(final); err == nil {
+			w.Violate("c09-published-before-complete", "%s: the final name exists although the upload is not complete", when)
+			return false
+		}
+		got, err := os.ReadFile(partial)
+		if err != nil {
+			if offset > 0 {
+				w.Violate("c09-partial-missing", "%s: partial file is missing, the server received %d data bytes", when, offset)
+				return false
+			}
+			// nothing of the data fork has arrived yet: an empty partial file and no partial file are the same
+			// "prefix received"; the model follows what the server chose
+			exists = false
+			return true
+		}
+		if !bytes.Equal(got, data[:offset]) {
+			sig := "c09-partial-not-prefix-received"
+			if bytes.HasPrefix(data, got) {
+				sig = "c09-partial-wrong-length"
+			}
+			w.Violate(sig, "%s: partial file has %d bytes, the data bytes received are exactly %d (is a prefix of the data: %v)", when, len(got), offset, bytes.HasPrefix(data, got))
+			return false
+		}
+		return true
+	}
+	atOnce := false // the previous attempt was cut and nothing has been waited for or checked since
+	for attempt, op := range append(ops, Op{K: "finish"}) {
+		// what would a client do: resume if the server lists the file (a partial upload is shown under its final name)
+		listed := false
+		if rep, ok := c.Do(rp.TGetFileNameList, rp.F(rp.FFilePath, rp.FilePath(path...))); ok {
+			for _, d := range rep.GetAll(rp.FFileNameWithInfo) {
+				if e, err := rp.DecodeFileEntry(d); err == nil && e.Name == name {
+					listed = true
+				}
+			}
+		}
+		if listed != exists {
+			w.Violate("c09-partial-not-listed", "attempt %d: partial upload exists=%v but the file list shows the name: %v", attempt, exists, listed)
+			return
+		}
+		ref, roff, rep, ok := c.UploadReq(path, name, uint32(len(data)), exists)
+		if !ok {
+			w.Violate("c09-upload-refused", "attempt %d (resume=%v): upload request refused/unanswered: %s", attempt, exists, fieldStr(rep, rp.FError))
+			return
+		}
+		if exists && atOnce {
+			// nothing was checked since the cut: the offset the server reports is taken as it is - a resumed upload
+			// from that offset must complete to the identical file
+			w.Probe("resume_requested_at_once_after_cut")
+			if int(roff) > len(data) {
+				w.Violate("c09-resume-offset", "attempt %d: server reports resume offset %d for a file of %d bytes", attempt, roff, len(data))
+				return
+			}
+			offset = int(roff)
+		} else if exists {
+			w.Probe("resume_requests")
+			if int(roff) != offset {
+				w.Violate("c09-resume-offset", "attempt %d: server reports resume offset %d, it received %d data bytes", attempt, roff, offset)
+				return
+			}
+		}
+		stream := UploadStream(ref, name, data[offset:], rsrc, withRsrc, comment)
+		info := rp.InfoFork{Name: []byte(name), Comment: []byte(comment)}
+		hdr := 16 + 24 + 16 + len(info.Encode()) + 16
+		if op.K == "finish" {
+			c.SendStream(stream, -1, 0)
+			break
+		}
+		// choose the cut offset
+		cut := 0
+		if op.N[0] < 0 {
+			cut = w.Case.Idx % len(stream)
+			w.Probe("sweep_cuts")
+		} else {
+			regions := [][2]int{{0, 16}, {16, 40}, {40, 56}, {56, hdr - 16}, {hdr - 16, hdr}, {hdr, hdr + 2}, {hdr, len(stream)}, {max(hdr, len(stream)-20), len(stream)}, {0, len(stream)}}
+			r := regions[op.N[0]]
+			lo, hi := min(r[0], len(stream)-1), min(r[1], len(stream))
+			cut = lo + (hi-lo)*op.N[1]/1001
+		}
+		cut = max(0, min(cut, len(stream)-1))
+		w.Probe("fault_cut")
+		switch {
+		case cut < 16:
+			w.Probe("fault_cut_in_preamble")
+		case cut < hdr:
+			w.Probe("fault_cut_in_header")
+		case cut < hdr+len(data)-offset:
+			w.Probe("fault_cut_in_data")
+		default:
+			w.Probe("fault_cut_in_resource_fork")
+		}
+		graceful := len(op.N) > 2 && op.N[2] == 1
+		if op.N[0] < 0 {
+			graceful = w.Case.Idx/len(stream)%2 == 1
+		}
+		if graceful {
+			w.Probe("fault_cut_by_close")
+		} else {
+			w.Probe("fault_cut_by_reset")
+		}
+		c.SendStreamCut(stream, cut, 0, graceful)
+		if cut >= 16 {
+			exists = true // the server opens the partial file as soon as it has the transfer preamble
+		}
+		offset += max(0, min(cut-hdr, len(data)-offset))
+		if atOnce = len(op.N) > 3 && op.N[3] == 1 && cut >= 16; atOnce {
+			continue
+		}
+		Settle() // the server notices the reset; its transfer handler ends
+		if !check(fmt.Sprintf("after cut %d of attempt %d at stream offset %d", attempt, attempt, cut)) {
+			return
+		}
+	}
+	Settle()
+	got, err := os.ReadFile(final)
+	if err != nil {
+		w.Violate("c09-not-published", "upload completed but the final name does not exist: %v", err)
+		return
+	}
+	if !bytes.Equal(got, data) {
+		w.Violate("c09-content-differs", "uploaded file has %d bytes and differs from the %d bytes sent (common prefix %d)", len(got), len(data), commonPrefix(string(got), string(data)))
+		return
+	}
+	if _, err := os.Stat(partial); err == nil {
+		w.Violate("c09-partial-left-behind", "the partial file still exists after completion")
+	}
+	res := c.Download(path, name, -1, false)
+	if !res.OK || !bytes.Contains(res.Stream, data) || int(res.FileSize) != len(data) {
+		w.Violate("c09-download-differs", "download of the uploaded file does not return the uploaded bytes (ok=%v, stream %d bytes, file size field %d)", res.OK, len(res.Stream), res.FileSize)
+		return
+	}
+	// "what was uploaded is what a later download returns": the data fork exactly, and - when the server is configured
+	// to keep forks - the resource fork and the type, creator and comment of the information fork that were uploaded
+	h, err := rp.DecodeFFOHead(res.Stream)
+	if err != nil {
+		w.Violate("c09-download-differs", "download of the uploaded file: %v", err)
+		return
+	}
+	body := res.Stream[h.Len:]
+	if int(h.DataSize) != len(data) || !bytes.HasPrefix(body, data) {
+		w.Violate("c09-download-differs", "download of the uploaded file: DATA fork of %d bytes, uploaded %d (common prefix %d)", h.DataSize, len(data), commonPrefix(string(body), string(data)))
+		return
+	}
+	if cfg["forks"] == 1 {
+		w.Probe("download_checked_with_forks")
+		if h.Info.Type != "TEXT" || h.Info.Creator != "ttxt" || string(h.Info.Comment) != comment {
+			w.Violate("c09-download-info-differs", "download of the uploaded file: type %q creator %q comment %q, uploaded \"TEXT\" \"ttxt\" %q", h.Info.Type, h.Info.Creator, Short(h.Info.Comment), comment)
+		}
+		rest := body[len(data):]
+		if withRsrc && len(rsrc) > 0 {
+			if want := append(rp.ForkHeader("MACR", uint32(len(rsrc))), rsrc...); !bytes.Equal(rest, want) {
+				w.Violate("c09-download-rsrc-differs", "download of the uploaded file: %d bytes after the data fork, uploaded a resource fork of %d bytes (MACR header + fork = %d)", len(rest), len(rsrc), len(want))
+			}
+		}
+	}
+	w.Probe("uploads_completed")
 }
 
 func init() {
